@@ -147,6 +147,155 @@ Definition known_hosts_pre (lib : bytes -> result attrs) (data : bytes) : result
   ssh_file ssh_skip_pre_hosts lib (bs "SSH known_hosts") data.
 
 (* ------------------------------------------------------------------ *)
+(* golang.org/x/crypto v0.28.0 ssh/keys.go: ParseAuthorizedKey (:165), ParseKnownHosts (:111) and
+   parseAuthorizedKey (:86) - how a line is split into fields - down to, but not including,
+   ssh.ParsePublicKey: the parameter key_of stands for ParsePublicKey on the base64-decoded blob followed
+   by the attribute builder (pub.Type(), cryptoPublicKeyAttributes); the harness records its answers *)
+
+Definition is_sp_tab (c : N) : bool := (c =? 32) || (c =? 9).
+
+(* s[:i], s[i:] for i = bytes.IndexAny(s, space or tab); i = len(s) when there is none (then the second part is empty;
+   it is never empty otherwise: it starts with the blank) *)
+Fixpoint span_word (l : bytes) : bytes * bytes :=
+  match l with
+  | [] => ([], [])
+  | c :: r => if is_sp_tab c then ([], l) else let (w, t) := span_word r in (c :: w, t)
+  end.
+
+Fixpoint skip_sp_tab (l : bytes) : bytes :=
+  match l with
+  | c :: r => if is_sp_tab c then skip_sp_tab r else l
+  | [] => []
+  end.
+
+(* the option scanner of ParseAuthorizedKey (keys.go:201-217): returns in[i:] for the i the loop ends with -
+   the first blank outside quotes, or the LAST index when there is none (Go's range variable keeps its
+   last value).  A double quote toggles the quote state unless the byte before it is a backslash.  The options
+   themselves are dropped by the callers in internal/file. *)
+Fixpoint opt_scan (prev : option N) (inq : bool) (l : bytes) : bytes :=
+  match l with
+  | [] => []
+  | b :: r =>
+      if negb inq && is_sp_tab b then l
+      else
+        let esc := match prev with Some p => p =? 92 | None => false end in
+        let inq' := if (b =? 34) && negb esc then negb inq else inq in
+        match r with
+        | [] => [b]
+        | _ :: _ => opt_scan (Some b) inq' r
+        end
+  end.
+
+(* bytes.Fields: maximal runs of bytes between white-space runes (unicode.IsSpace, see trim_space) *)
+Definition flush_field (cur : bytes) (acc : list bytes) : list bytes :=
+  match cur with [] => acc | _ => rev' cur :: acc end.
+Fixpoint fields_go (cur : bytes) (acc : list bytes) (l : bytes) : list bytes :=
+  match l with
+  | [] => rev' (flush_field cur acc)
+  | a :: r1 =>
+      if is_sp1 a then fields_go [] (flush_field cur acc) r1 else
+      match r1 with
+      | b :: r2 =>
+          if is_sp2 a b then fields_go [] (flush_field cur acc) r2 else
+          match r2 with
+          | c :: r3 => if is_sp3 a b c then fields_go [] (flush_field cur acc) r3 else fields_go (a :: cur) acc r1
+          | [] => fields_go (a :: cur) acc r1
+          end
+      | [] => fields_go (a :: cur) acc r1
+      end
+  end.
+Definition fields (l : bytes) : list bytes := fields_go [] [] l.
+
+Definition keyinfo := (bytes * attrs)%type.     (* pub.Type(), the attributes of the key itself *)
+
+Section SshLine.
+  Variable key_of : bytes -> result keyinfo.
+
+  (* internal/file/ssh.go sshPublicKeyAttributes / sshKnownHostsKeyAttributes *)
+  Definition key_attrs (k : keyinfo) (comment : bytes) : attrs :=
+    (bs "Type", fst k) :: (match comment with [] => [] | _ => [(bs "Comment", comment)] end) ++ snd k.
+  Definition hosts_attr (hosts : bytes) : bytes * bytes :=
+    (bs "Hosts", join (bs ", ") (split_on 44 hosts)).       (* strings.Join(strings.Split(hosts, ","), ", ") *)
+
+  (* keys.go:86 parseAuthorizedKey: the base64 field, the key, comment = the rest, trimmed *)
+  Definition parse_key_field (l : bytes) : result (keyinfo * bytes) :=
+    let t := trim_space l in
+    let (b64, rest) := span_word t in
+    match Base64.std_decode Base64.Std b64 with
+    | None => Err "illegal base64 data"
+    | Some key =>
+        match key_of key with
+        | Ok k => Ok (k, trim_space rest)
+        | Err e => Err e
+        | Panic e => Panic e
+        end
+    end.
+
+  (* one iteration of the loop of ParseAuthorizedKey on a line (no LF): None = `continue` *)
+  Definition auth_line (l : bytes) : option (result attrs) :=
+    let l1 := trim_space (cut_at 13 l) in
+    match l1 with
+    | [] => None
+    | x :: _ =>
+        if x =? 35 then None else
+        match snd (span_word l1) with
+        | [] => None                                        (* no blank in the line *)
+        | r =>
+            match parse_key_field r with
+            | Ok (k, c) => Some (Ok (key_attrs k c))
+            | Panic e => Some (Panic e)
+            | Err _ =>
+                (* no key after the first field: maybe the line starts with options *)
+                match skip_sp_tab (opt_scan None false l1) with
+                | [] => None                                (* "unmatched quote" *)
+                | l2 =>
+                    match snd (span_word l2) with
+                    | [] => None
+                    | r2 =>
+                        match parse_key_field r2 with
+                        | Ok (k, c) => Some (Ok (key_attrs k c))
+                        | Panic e => Some (Panic e)
+                        | Err _ => None
+                        end
+                    end
+                end
+            end
+        end
+    end.
+
+  (* one iteration of the loop of ParseKnownHosts *)
+  Definition hosts_line (l : bytes) : option (result attrs) :=
+    let l1 := trim_space (cut_at 13 l) in
+    match l1 with
+    | [] => None
+    | x :: _ =>
+        if x =? 35 then None else
+        match snd (span_word l1) with
+        | [] => None
+        | _ =>
+            let fs := fields l1 in
+            if Nat.ltb (length fs) 3 || Nat.ltb 5 (length fs) then Some (Err "ssh: invalid entry in known_hosts data")
+            else
+              let fs' := match fs with (64 :: _) :: t => t | _ => fs end in      (* "@cert-authority", "@revoked" *)
+              match parse_key_field (join [32] (drop 2 fs')) with
+              | Ok (k, c) => Some (Ok (hosts_attr (hd [] fs') :: key_attrs k c))
+              | Err e => Some (Err e)
+              | Panic e => Some (Panic e)
+              end
+        end
+    end.
+
+  (* the loops: line after line until one returns *)
+  Fixpoint first_line (f : bytes -> option (result attrs)) (eof : string) (ls : list bytes) : result attrs :=
+    match ls with
+    | [] => Err eof
+    | l :: r => match f l with Some res => res | None => first_line f eof r end
+    end.
+  Definition ssh_auth_lib (chunk : bytes) : result attrs := first_line auth_line "ssh: no key found"%string (split_lf chunk).
+  Definition ssh_hosts_lib (chunk : bytes) : result attrs := first_line hosts_line "EOF"%string (split_lf chunk).
+End SshLine.
+
+(* ------------------------------------------------------------------ *)
 (* PEMFile + skipToPEMBlock  (parsers.go) *)
 
 Record pblock := mkpblock { pb_type : bytes; pb_bytes : bytes }.
